@@ -8,8 +8,10 @@ C43  ConnHistory.tla: function table of history / presence / presence_stats requ
      path and compared with the row and with Node.History(effective filter) / Node.Presence / Node.PresenceStats.
 C36  ConnTimers.tla (+Sim): the multiplexed timer; harness TimerScheduler fires ping/pong/stale/presence virtually, one
      model Tick = one real second for connection / subscription expiry; action properties re-evaluated on the real run.
-C08  ConnLife.tla (+Sim): connect handshake / presence tick / close / Node.Shutdown for two connections, replayed with
-     every thread parked at natural gates (OnConnecting, Broker.Subscribe, OnConnect, OnAlive, Transport.Close).
+C08  ConnLife.tla (+Sim): connect handshake / presence tick / expiry timer / close / Node.Shutdown for two connections,
+     replayed with every thread parked at natural gates (OnConnecting, Transport.AcceptProtocol inside Node.addClient
+     before the hub registration, Broker.Subscribe, OnConnect, OnAlive, Transport.Close); connection 2 of every other
+     behaviour connects through the unidirectional Client.Connect.
 C11  ConnLife.tla with pushes in the connect window + ConnDict.tla (codec life cycle) replayed over a real WebSocket
      connection with a recording DictionaryCompression engine.
 
@@ -23,6 +25,40 @@ Genuine defects found on the unchanged tree (signatures as printed by the checks
        is written before the reply; DESIGN 10 item 1 root cause for the publication)
 Not a property violation, reported: after Client.Refresh(ExpireAt=0) nextExpire stays armed; when that timer fires
 expire() returns without re-arming anything, so pings / presence ticks stop (ConnTimers.tla ArmedWhileConnected).
+
+Seeded changes (second round):
+  C09-1 (connection not marked unusable when the failed connect had already authenticated): connect outcomes "sserr" /
+        "ssdisc" (connect-time server-side subscription failing with a client error / a disconnect after addClient) in
+        Connect.tla, monitor C09_FailedConnect, a design run with the reader that does not stop (quick_loose.cfg);
+        caught as failed-connect:not-closed:<kind> / gate:not-closed:<kind>.
+  C09-2 (per-connection scratch error reply): ConnConc.tla (error completions split at the "client command error" log
+        call), replayed with goroutines parked in Config.LogHandler + stress mode; caught as
+        reply:id-answered-twice:concurrent-async-errors / reply:id-never-answered:... / reply:wrong-answer:...
+  C36-1 (stale timer stopped when a connect command starts): connect outcomes err / sserr in ConnTimers.tla; a missing
+        timer is remembered, the observable consequence decides; caught as stale:not-closed:after-failed-connect.
+  C36-2 (expire() drops the deadline before calling out): timer firing split into TimerFire (dequeue) and TimerRun
+        (callback executes timerOp as it is then), refreshes interleave; witness WitLateRun; caught as
+        expire:not-closed:refresh-between-fire-and-run.
+  C43-2 (single-flight key built from non-default options only: limit 0 and NoLimit share a flight): ConnHistorySF.tla
+        (two readers, in-flight set keyed by the full option tuple, property = the reply of the request executed alone),
+        every ordered pair x arrival point replayed with the first reader parked in Broker.History (UseSingleFlight);
+        caught as singleflight:merged-different-options:limit(-1|0):node|client (and the other origin pairs).
+  C08-1 (shutdown check moved in front of authenticated := true / addClient): reader state "ac" (authenticated, not yet in
+        the hub; gate Transport.AcceptProtocol with Config.Metrics.ExposeTransportAcceptProtocol), hub registration +
+        shutdown check as its own action ConnReg, witnesses Wit3 / Wit4 (Shutdown begins / begins and returns inside that
+        window); caught as connected-after-shutdown:during / :after.
+  C08-2 (scheduleOnConnectTimers before triggerConnect): timer arming as its own step (ConnArm after ConnDone), expiry
+        timer + refresh handler (TimerExpire), "connect-ret" in the callback log, monitor "no alive / refresh / sub-refresh
+        callback before the connect callback returned" (C08_Order, C08_NoEarlyTimer); while a reader is parked inside
+        OnConnect a timer armed since the connect began is fired and the consequence judged; caught as
+        order:(alive|refresh)-before-connect-returned(:unidirectional)?.
+  C11-1 (flagSubscribed dropped from writePublicationUpdatePosition): publications WITH an offset (kind "hpub") to three
+        connect-time server-side subscriptions (gated in Broker.Subscribe / already in the hub / positioned) inside the
+        connect window; every frame before the connect reply is reported with the kind of push; caught as
+        first-frame:push-pub-with-offset (the positioned one stays buffered; not seen on the unchanged tree).
+  C11-2 (closed re-check after dictionary negotiation folded into the later one that does not close the codec):
+        ConnDictConn.tla (connect command x close() interleavings), close() run by the stale timer while the connect
+        command is held inside the engine; caught as dict:codec-never-closed:close-during-negotiation / -dictionary.
 
 Mutation testing (scratch worktrees /tmp/connect-*, each run through the harness mode of the property; caught = VIOLATION
 with a signature other than the known ones above):
@@ -135,12 +171,16 @@ def c09(c):
     dump_cfg = 'dump_quick.cfg' if quick else 'dump_thorough.cfg'
     nsim = 1200 if quick else 12000
     c._specdir('Connect')          # the scratch copy is created once, before the concurrent TLC runs share it
-    r1, r2, s, binp = _par(
+    loose_cfg = 'quick_loose.cfg' if quick else 'thorough_loose.cfg'
+    r1, r1b, r2, s, binp = _par(
         lambda: c.tlc_exhaustive('Connect', 'Connect', design_cfg, workers=4, timeout=3000),
+        # a reader that keeps feeding commands after HandleCommand returned false (emulation endpoint)
+        lambda: c.tlc_exhaustive('Connect', 'Connect', loose_cfg, workers=2, timeout=3000),
         lambda: c.tlc_exhaustive('Connect', 'Connect', dump_cfg, workers=4, timeout=3000, dump=True),
         lambda: c.tlc('Connect', 'ConnectSim', 'sim.cfg', simulate=nsim, depth=18, timeout=1500),
         lambda: c.go_build('connect'))
     c.log('TLC exhaustive %s (closes delayed arbitrarily): %d distinct / %d generated' % (design_cfg, r1['distinct'], r1['states']))
+    c.log('TLC exhaustive %s (reader that does not stop): %d distinct / %d generated' % (loose_cfg, r1b['distinct'], r1b['states']))
     c.log('TLC exhaustive %s (one state per path): %d distinct / %d generated' % (dump_cfg, r2['distinct'], r2['states']))
     if not s['ok']:
         raise vf.Inconclusive('simulation failed: %s\n%s' % (s['error'], s['out'][-3000:]))
@@ -157,50 +197,121 @@ def c09(c):
         c.cov['distinct_nontrivial'] += res['nontrivial']
         c.cov['samples'] += res['samples'][:1]
         c.log('replay %s: %d executed, %d completed, %d non-trivial' % (name, res['executed'], res['completed'], res['nontrivial']))
+    # concurrent completion of asynchronous callbacks: every path of ConnConc.tla with the completing goroutines
+    # parked inside Config.LogHandler, plus a stress mode without gates
+    rc = c.tlc_exhaustive('Connect', 'ConnConc', 'conc_quick.cfg' if quick else 'conc_thorough.cfg', workers=2, timeout=900, dump=True)
+    ncmd = 3 if quick else 4
+    paths = [st['hist'] for st in c.dump_states(rc) if not st['pend'] and not st['infl']]
+    c.log('TLC ConnConc: %d distinct states, %d complete interleavings of %d asynchronous completions' % (rc['distinct'], len(paths), ncmd))
+    res = c.harness(binp, 'c09conc', {'n': ncmd, 'protos': ['json', 'protobuf'], 'paths': paths}, timeout=1500)
+    c.absorb(res)
+    total['executed'] += res['executed']
+    total['completed'] += res['completed']
+    c.cov['distinct_nontrivial'] += res['nontrivial']
+    c.log('replay concurrent completions: %d executed, %d completed, %d with overlapping error completions' % (res['executed'], res['completed'], res['nontrivial']))
+    rounds = 400 if quick else 4000
+    res = c.harness(binp, 'c09stress', {'n': 8, 'protos': ['json', 'protobuf'], 'rounds': rounds}, timeout=1500)
+    c.absorb(res)
+    total['executed'] += res['executed']
+    total['completed'] += res['completed']
+    c.log('stress: %d rounds of 8 simultaneous error completions, %d clean' % (res['executed'], res['completed']))
     c.cov['traces_validated_against_impl'] = total['completed']
     c.cov['evaluations'] = total['executed']
     c.cov['rule'] = ('behaviours of Connect.tla: (a) every maximal path of the exhaustive TLC dump (<= 3 commands over the whole alphabet incl. async completions, '
                      'all environment configurations), (b) TLC -simulate behaviours (<= 7 commands, timers, Client.Disconnect, transport close); each replayed twice '
                      '(JSON and Protobuf framing) through HandleReadFrame on a real client; non-trivial = completed behaviour with at least one command after/other than '
-                     'connect, an async completion or a timer firing, distinct by (framing, cfg, step list)')
+                     'connect, an async completion or a timer firing, distinct by (framing, cfg, step list); (c) every interleaving of ConnConc.tla (3-4 asynchronous completions, error completions split at '
+                     'the library\'s "client command error" log call) replayed with goroutines parked in Config.LogHandler, and stress rounds of 8 simultaneous error completions')
     c.assumptions += ['one connection, one channel per behaviour; one command per frame',
                       'a spawned close() runs before the next command is fed (replay); arbitrary delays are covered on the model only',
                       'an unsubscribe command is never sent while a subscribe of the same channel is pending (SubLifecycle)',
                       'the connect handshake and close() are atomic here (their interleavings: C08/C11 checks)']
 
 
+def _sf_rows(dump_file):
+    """Terminal states (both readers done) of a ConnHistorySF dump, as harness rows. The dump is filtered as text first:
+    parsing every intermediate state would take longer than the whole check."""
+    import re
+    from lib import tlaparse
+    done = re.compile(r'pc = \[A \|-> "done", B \|-> "done"\]')
+    keep, blk = [], []
+    with open(dump_file) as fh:
+        for line in fh:
+            if line.startswith('State '):
+                if blk and done.search(''.join(blk)):
+                    keep += blk
+                blk = [line]
+            else:
+                blk.append(line)
+    if blk and done.search(''.join(blk)):
+        keep += blk
+    rows = []
+    for s in tlaparse.parse_states_file(''.join(keep)):
+        a = s['req']['A']
+        if s['bstart'] != 'done' and a['reverse'] and a['since']['has'] and a['since']['off'] == 0:
+            continue   # refused by Node.history before the broker is asked: nowhere to hold it (model only)
+        rows.append({'max': s['cmax'], 'a': s['req']['A'], 'b': s['req']['B'], 'bstart': s['bstart'],
+                     'merged': s['lead']['B'] == 'A', 'reply_a': s['reply']['A'], 'reply_b': s['reply']['B']})
+    return rows
+
+
 def c43(c):
-    cfg = 'hist_quick.cfg' if c.tier == 'quick' else 'hist_thorough.cfg'
+    quick = c.tier == 'quick'
+    cfg = 'hist_quick.cfg' if quick else 'hist_thorough.cfg'
+    sf_cfg = 'hist_sf_quick.cfg' if quick else 'hist_sf_thorough.cfg'
     c._specdir('Connect')
-    r, binp = _par(lambda: c.tlc_exhaustive('Connect', 'ConnHistory', cfg, workers=2, timeout=1500, dump=True),
-                   lambda: c.go_build('connect'))
+    r, rsf, wit, binp = _par(lambda: c.tlc_exhaustive('Connect', 'ConnHistory', cfg, workers=2, timeout=1500, dump=True),
+                             # concurrent readers with Config.UseSingleFlight: all ordered pairs of requests x where the second arrives
+                             lambda: c.tlc_exhaustive('Connect', 'ConnHistorySF', sf_cfg, workers=4, timeout=1500, dump=True),
+                             # the same model with a key that leaves default-valued options out must break the property (sharpness)
+                             lambda: c.tlc('Connect', 'ConnHistorySF', 'hist_sf_wit.cfg', workers=2, timeout=600, expect_violation=True),
+                             lambda: c.go_build('connect'))
     rows = c.dump_states(r)
     c.log('TLC: %d rows enumerated (%s), clamp transcription = reference, bound and filter invariants hold' % (len(rows), cfg))
+    if wit['ok'] or 'FlightSequential is violated' not in wit['out']:
+        raise vf.Inconclusive('ConnHistorySF with a single-flight key without default-valued options satisfies FlightSequential: the property is blunt\n' + wit['out'][-1500:])
     res = c.harness(binp, 'c43', {'protos': ['json', 'protobuf'], 'rows': rows}, timeout=1500)
     c.absorb(res)
-    c.cov['traces_validated_against_impl'] = res['completed']
-    c.cov['evaluations'] = res['executed']
-    c.cov['distinct_nontrivial'] = res['nontrivial']
+    sf_rows = _sf_rows(rsf['dump_file'])
+    import os
+    import re
+    top = int(re.search(r'MaxTop\s*=\s*(\d+)', open(os.path.join(c._specdir('Connect'), sf_cfg)).read()).group(1))
+    c.log('TLC ConnHistorySF (%s): %d distinct / %d generated; %d terminal states = ordered request pairs x arrival point, %d of them merged; '
+          'witness key "nondefault" violates FlightSequential' % (sf_cfg, rsf['distinct'], rsf['states'], len(sf_rows), sum(1 for x in sf_rows if x['merged'])))
+    res2 = c.harness(binp, 'c43sf', {'top': top, 'protos': ['json', 'protobuf'], 'rows': sf_rows}, timeout=1500)
+    c.absorb(res2)
+    c.log('single-flight replay: %d executed, %d completed, %d merged, %d re-executed' % (res2['executed'], res2['completed'], res2['counters'].get('merged', 0), res2['counters'].get('re-executed', 0)))
+    c.cov['traces_validated_against_impl'] = res['completed'] + res2['completed']
+    c.cov['evaluations'] = res['executed'] + res2['executed']
+    c.cov['distinct_nontrivial'] = res['nontrivial'] + res2['nontrivial']
+    c.cov['singleflight_pairs'] = {'executed': res2['executed'], 'completed': res2['completed'], 'overlapping_distinct': res2['nontrivial'], 'counters': res2['counters']}
     c.cov['exhaustive'] = True
-    c.cov['samples'] = res['samples']
-    c.cov['rule'] = ('every row of ConnHistory.tla (%s): history requests (stream length x limit incl. -1/0 x since none / offset 0..top+1 x epoch empty/same/foreign x reverse x '
+    c.cov['samples'] = res['samples'][:2] + res2['samples'][:1]
+    c.cov['rule'] = ('(a) every row of ConnHistory.tla (%s): history requests (stream length x limit incl. -1/0 x since none / offset 0..top+1 x epoch empty/same/foreign x reverse x '
                      'HistoryMaxPublicationLimit) and presence / presence_stats rows (0..n subscribed connections of 1-2 users, asked again after one left), each executed over JSON and '
                      'Protobuf through the client command path of a real node and compared with Node.History(effective filter) / Node.Presence / Node.PresenceStats on that node and with the '
-                     'row; non-trivial = history row that returns publications, an error or is clamped, presence row with at least one subscriber' % cfg)
+                     'row; non-trivial = history row that returns publications, an error or is clamped, presence row with at least one subscriber; '
+                     '(b) every terminal state of ConnHistorySF.tla (%s): ordered pairs of readers of one channel on a node with UseSingleFlight (client history command, Node.History incl. meta '
+                     'TTL, recovering subscribe, positioned subscribe x limit -1/0/1/cap/cap+1 x reverse x since x ttl), the second issued while the first is parked inside Broker.History, after it '
+                     'but still in flight, or after it returned; both replies compared with the same request executed alone on the same stream, merging observed through the goroutine that '
+                     'calls Broker.History; non-trivial = completed overlapping pair, distinct by (framing, arrival point, pair)' % (cfg, sf_cfg))
     c.assumptions += ['memory broker and memory presence manager, all publications retained (history size 32, no expiry during a row)',
                       'application handlers answer with an empty reply (the library computes the result); custom results are passed through unchanged by construction',
-                      'reverse reads from beyond top+1 are compared with Node.History only (outside the reference, see MemBroker.tla)']
+                      'reverse reads from beyond top+1 are compared with Node.History only (outside the reference, see MemBroker.tla)',
+                      'single-flight part: two readers, static stream (no publication while a read is in flight: a merged reader then sees the stream as of the leader\'s read); a reader that has '
+                      'not joined the flight 15 ms (150 / 300 ms on re-execution) after it was issued counts as reading for itself']
 
 
 def c36(c):
     quick = c.tier == 'quick'
     c._specdir('Connect')
-    r, binp, w1, w2 = _par(lambda: c.tlc_exhaustive('Connect', 'ConnTimers', 'timers_quick.cfg' if quick else 'timers_thorough.cfg', workers=4, timeout=3000),
-                           lambda: c.go_build('connect'),
-                           lambda: c.tlc('Connect', 'ConnTimers', 'timers_wit_ClientZero.cfg', workers=1, timeout=600, expect_violation=True),
-                           lambda: c.tlc('Connect', 'ConnTimers', 'timers_wit_HandlerZero.cfg', workers=1, timeout=600, expect_violation=True))
+    wnames = ('ClientZero', 'HandlerZero', 'LateRun', 'StaleAfterFailedConnect')
+    rs = _par(lambda: c.tlc_exhaustive('Connect', 'ConnTimers', 'timers_quick.cfg' if quick else 'timers_thorough.cfg', workers=4, timeout=3000),
+              lambda: c.go_build('connect'),
+              *[(lambda w=w: c.tlc('Connect', 'ConnTimers', 'timers_wit_%s.cfg' % w, workers=1, timeout=600, expect_violation=True)) for w in wnames])
+    r, binp = rs[0], rs[1]
     c.log('TLC exhaustive: %d distinct / %d generated, depth %d' % (r['distinct'], r['states'], r['depth']))
-    wits = [_trace(w['out']) for w in (w1, w2)]
+    wits = [_trace(w['out']) for w in rs[2:]]
     if not all(wits):
         raise vf.Inconclusive('a witness run produced no schedule')
     probe = c.harness(binp, 'c36probe', {}, timeout=120)
@@ -216,7 +327,7 @@ def c36(c):
         bb = [{k: x[k] for k in keep} for x in b]
         bb[0]['cfg'] = b[0]['cfg']
         behs.append(bb)
-    c.log('%d behaviours incl. 2 witness schedules (Client.Refresh(0) re-arms: %s)' % (len(behs), rearm))
+    c.log('%d behaviours incl. %d witness schedules (Client.Refresh(0) re-arms: %s)' % (len(behs), len(wits), rearm))
     res = c.harness(binp, 'c36', {'behaviours': behs}, timeout=2400)
     c.absorb(res)
     discarded = res['counters'].get('discarded_for_timing', 0)
@@ -249,12 +360,14 @@ def _life(c, prop, pushes):
             lambda: c.go_build('connect')]
     if not pushes:
         # witness schedules: counterexamples of the model WITHOUT the shutdown guard (the code as it is), always replayed
-        runs += [lambda: c.tlc('Connect', 'ConnLife', 'life_wit.cfg', workers=1, timeout=600, expect_violation=True),
-                 lambda: c.tlc('Connect', 'ConnLife', 'life_wit2.cfg', workers=1, timeout=600, expect_violation=True)]
+        # (shutdown while the connect is in OnConnecting: wit, wit2; between authentication and hub registration: wit3, wit4)
+        runs += [(lambda w=w: c.tlc('Connect', 'ConnLife', 'life_%s.cfg' % w, workers=1, timeout=600, expect_violation=True))
+                 for w in ('wit', 'wit2', 'wit3', 'wit4')]
     else:
         # witness schedules: a push of each kind inside the connect window
-        runs += [lambda: c.tlc('Connect', 'ConnLife', 'first_wit_Send.cfg', workers=1, timeout=600, expect_violation=True),
-                 lambda: c.tlc('Connect', 'ConnLife', 'first_wit_Pub.cfg', workers=1, timeout=600, expect_violation=True)]
+        # (Hpub*: a publication carrying an offset to the gated / an ungated / the positioned connect-time subscription)
+        runs += [(lambda w=w: c.tlc('Connect', 'ConnLife', 'first_wit_%s.cfg' % w, workers=1, timeout=600, expect_violation=True))
+                 for w in ('Send', 'Pub', 'HpubA', 'HpubB', 'HpubP')]
     rs = _par(*runs)
     r, binp = rs[0], rs[1]
     c.log('TLC exhaustive %s: %d distinct / %d generated, depth %d' % (design, r['distinct'], r['states'], r['depth']))
@@ -281,37 +394,83 @@ def _life(c, prop, pushes):
     c.log('replay: %d executed, %d completed, %d non-trivial, %s' % (res['executed'], res['completed'], res['nontrivial'], res['counters']))
     c._life_bin = binp
     c.assumptions += ['two connections on one node, JSON protocol, in-memory transport (the WebSocket handler\'s own shutdown check before NewClient is not exercised)',
-                      'threads are held only where a public interface call exists: OnConnecting, Broker.Subscribe of a connect-time subscription, OnConnect, OnAlive, Transport.Close',
-                      'a close() that is neither parked nor blocked runs at once; at most one close() waits on connectMu behind a reader (wake-up order of several is arbitrary)',
+                      'threads are held only where a public interface call exists: OnConnecting, Transport.AcceptProtocol (Node.addClient, before hub.add), Broker.Subscribe of a connect-time subscription, OnConnect, OnAlive, Transport.Close',
+                      'a close() that is neither parked nor blocked runs at once; at most one close() waits on connectMu behind a reader (wake-up order of several is arbitrary); no close() is started on a connection whose reader is parked inside addClient (it would race the ungated rest of connectCmd); both are explored on the model only',
+                      'timers fire only when the harness TimerScheduler fires them; the sub-refresh callback is part of the presence tick that delivers OnAlive (no separate schedule)',
+                      'a window publication to the positioned subscription blocks its publisher until the connect reply is out (subscription lock): such publications are handed over asynchronously',
                       'Guard: the model refuses a connection once shutdown began; witness schedules come from the unguarded model']
 
 
 def c08(c):
     _life(c, 'C08', False)
-    c.cov['rule'] = ('behaviours of ConnLife.tla (TLC -simulate with slot weights, plus 2 witness schedules of the unguarded model), each replayed on its own node with the reader, tick and '
-                     'close threads parked at OnConnecting / Broker.Subscribe / OnConnect / OnAlive / Transport.Close as the model says; non-trivial = completed behaviour in which a connect '
+    c.cov['rule'] = ('behaviours of ConnLife.tla (TLC -simulate with slot weights, plus 4 witness schedules of the unguarded model: Shutdown during OnConnecting and between authentication and hub '
+                     'registration), each replayed on its own node with the reader, tick and close threads parked at OnConnecting / Transport.AcceptProtocol (addClient) / Broker.Subscribe / OnConnect / '
+                     'OnAlive / Transport.Close as the model says, connections with and without expiring credentials, bidirectional connect command and unidirectional Client.Connect; a timer armed while '
+                     'OnConnect is still running is fired and judged by its observable consequence; a drifted behaviour is re-executed (3 attempts); non-trivial = completed behaviour in which a connect '
                      'handshake passed its authentication step, a tick or a close ran, distinct by step list')
+
+
+def _dictconn_rows(states):
+    """Quiescent behaviours of ConnDictConn.tla that a real connection can be made to follow: close() runs its status,
+    writer and codec steps in one piece right after connectCmd reached a point inside application code (OnConnecting,
+    NewDictionaryConnection, Dictionary) or after the handshake, and its Transport.Close ends last (the closing handshake
+    waits for the read loop). One row per (scenario, point)."""
+    k3 = ['KMark', 'KFlush', 'KCodec']
+    park = {'RConnecting': 'connecting', 'RChecked': 'negotiate', 'RNegotiate': 'dictionary', 'RReply': 'up', 'ROp': 'up'}
+    rows, seen = [], set()
+    for s in states:
+        h = s['hist']
+        if s['kpc'] != 'done' or s['cpc'] not in ('failed', 'up') or 'KMark' not in h:
+            continue
+        i = h.index('KMark')
+        if h[i:i + 3] != k3 or h[-1] != 'KDone' or i == 0 or h[i - 1] not in park:
+            continue
+        key = json.dumps([s['sc'], park[h[i - 1]]], sort_keys=True)
+        if key in seen:
+            continue
+        seen.add(key)
+        rows.append({'sc': s['sc'], 'park': park[h[i - 1]], 'hist': h, 'cc': s['cc'], 'closes': s['closes'], 'wire': s['wire'], 'enc': s['enc']})
+    return rows
 
 
 def c11(c):
     _life(c, 'C11', True)
     n1, e1, d1 = c.cov['traces_validated_against_impl'], c.cov['evaluations'], c.cov['distinct_nontrivial']
-    r = c.tlc_exhaustive('Connect', 'ConnDict', 'dict_quick.cfg' if c.tier == 'quick' else 'dict_thorough.cfg', workers=2, timeout=900, dump=True)
+    r, rc, wit = _par(lambda: c.tlc_exhaustive('Connect', 'ConnDict', 'dict_quick.cfg' if c.tier == 'quick' else 'dict_thorough.cfg', workers=2, timeout=900, dump=True),
+                      # connect command and close() as two threads, every interleaving
+                      lambda: c.tlc_exhaustive('Connect', 'ConnDictConn', 'dict_conn.cfg', workers=2, timeout=900, dump=True),
+                      # the same model whose closed re-check does not close the codec must break "exactly once" (sharpness)
+                      lambda: c.tlc('Connect', 'ConnDictConn', 'dict_conn_wit.cfg', workers=1, timeout=600, expect_violation=True))
+    if wit['ok'] or 'DictExactlyOnce is violated' not in wit['out']:
+        raise vf.Inconclusive('ConnDictConn without the codec close of the closed re-check satisfies DictExactlyOnce: the property is blunt\n' + wit['out'][-1500:])
     rows = [s for s in c.dump_states(r) if s['pc'] == 'done']
     c.log('TLC ConnDict: %d scenarios' % len(rows))
     res = c.harness(c._life_bin, 'c11dict', {'rows': rows}, timeout=1200)
     c.absorb(res)
-    c.cov['traces_validated_against_impl'] = n1 + res['completed']
-    c.cov['evaluations'] = e1 + res['executed']
-    c.cov['distinct_nontrivial'] = d1 + res['nontrivial']
-    c.cov['samples'] += res['samples'][:1]
-    c.log('dictionary scenarios: %d executed, %d completed' % (res['executed'], res['completed']))
-    c.cov['rule'] = ('(a) behaviours of ConnLife.tla with pushes (Client.Send through Hub().Connections(), publications without history to the connect-time server-side subscription) placed while '
-                     'the connect command is parked after addClient (inside Broker.Subscribe) / in OnConnect / later, replayed by gates; (b) every scenario of ConnDict.tla (<= 2-3 frames of '
+    crows = _dictconn_rows(c.dump_states(rc))
+    c.log('TLC ConnDictConn: %d distinct / %d generated (connect command x close() interleavings), %d replayable schedules; witness without the re-check close violates DictExactlyOnce'
+          % (rc['distinct'], rc['states'], len(crows)))
+    res2 = c.harness(c._life_bin, 'c11dictconn', {'rows': crows}, timeout=1200)
+    c.absorb(res2)
+    c.cov['traces_validated_against_impl'] = n1 + res['completed'] + res2['completed']
+    c.cov['evaluations'] = e1 + res['executed'] + res2['executed']
+    c.cov['distinct_nontrivial'] = d1 + res['nontrivial'] + res2['nontrivial']
+    c.cov['samples'] += res['samples'][:1] + res2['samples'][:1]
+    c.log('dictionary scenarios: %d executed, %d completed; connect x close schedules: %d executed, %d completed, %d re-executed'
+          % (res['executed'], res['completed'], res2['executed'], res2['completed'], res2['counters'].get('re-executed', 0)))
+    c.cov['rule'] = ('(a) behaviours of ConnLife.tla with pushes (Client.Send through Hub().Connections(), publications without history to the gated connect-time server-side subscription, publications '
+                     'WITH history/offset to the gated, an ungated non-positioned and a positioned connect-time subscription; 5 witness schedules, one per kind) placed while '
+                     'the connect command is parked after addClient (inside Broker.Subscribe) / in OnConnect / later, replayed by gates, every frame written before the connect reply reported by kind; (b) every scenario of ConnDict.tla (<= 2-3 frames of '
                      'kinds rpc reply / push after the connect reply, closed by the client, Client.Disconnect or Node.Shutdown, or closed by the stale timer during OnConnecting) on a real node '
-                     'behind the real WebsocketHandler with a raw WebSocket client and a recording DictionaryCompression engine; non-trivial = completed behaviour / scenario, distinct by steps')
+                     'behind the real WebsocketHandler with a raw WebSocket client and a recording DictionaryCompression engine; (c) the behaviours of ConnDictConn.tla (connect command split into '
+                     'OnConnecting / closed check / NewDictionaryConnection / Dictionary / install / closed re-check / registration / reply, close() split into status / writer / codec / transport) '
+                     'in which close() runs while the connect command is held inside OnConnecting, NewDictionaryConnection or Dictionary (stale timer fired by the harness scheduler, the engine '
+                     'parks) or after the handshake, for a full dictionary and for one named by an id the client never presented; verdict from the engine\'s log: every codec handed out closed '
+                     'exactly once, after its last Encode; non-trivial = completed behaviour / scenario, distinct by steps')
     c.assumptions += ['dictionary part: JSON protocol over WebSocket text/binary messages, one connection per node; the engine marks encoded frames with a prefix byte',
-                      'what becomes of a push sent before the connect reply (delivered after it or dropped) is not part of the model\'s claim']
+                      'what becomes of a push sent before the connect reply (delivered after it or dropped) is not part of the model\'s claim',
+                      'a real connection can be held only inside application code: the interleavings of close() with the steps between SetDictionaryCompression and the connect reply are checked on '
+                      'the model only (ConnDictConn.tla, exhaustive)']
 
 
 CHECKS = {'C09': c09, 'C43': c43, 'C36': c36, 'C08': c08, 'C11': c11}
@@ -320,25 +479,28 @@ _note9 = ('Bounds: exhaustive design check 2 commands (quick) / 3 (thorough) wit
           'exhaustive replay: all sequences of <= 3 commands (alphabet of 56 symbols x id modes, 6 environment configurations) with <= 1 async callback; simulated replay: <= 7 commands, '
           '<= 2 async callbacks, <= 4 timer firings. Trusted: TLC, lib/tlaparse.py, harness projection/monitor code, harness TimerScheduler.')
 _note43 = ('Bounds: streams of 0..3 (quick) / 0..6 (thorough) publications, limits {-1,0,1,2,3,5} / {-1,0,1,2,3,5,7}, since none or offset 0..top+1 with 3 epochs, both directions, '
-           'HistoryMaxPublicationLimit {0,2} / {0,1,2,4}; presence with <= 3 / 4 subscribers. Exhaustive within the bounds. Trusted: TLC, lib/tlaparse.py, harness comparison code.')
+           'HistoryMaxPublicationLimit {0,2} / {0,1,2,4}; presence with <= 3 / 4 subscribers. Exhaustive within the bounds. Trusted: TLC, lib/tlaparse.py, harness comparison code. Single flight: 2 readers of a static stream of 3 (5) publications, limits {-1,0,1,2,3}, cap 2 ({0,2}), since none / offset 1 ({0,2}), both directions, meta TTL 0 / 60 s for node-level readers, all ordered pairs x 3 arrival points.')
 _note36 = ('Bounds: exhaustive 4 s / 5 actions (quick), 6 s / 7 actions (thorough) over 12 configurations; replay 400 / 3000 simulated behaviours of <= 5 s and <= 8 actions. '
            'Ping 1 s, pong timeout 0.4 s, grace delays 1 s, expiries 1-2 s, refresh extends by 2 s. Trusted: TLC, lib/tlaparse.py, harness TimerScheduler and monitor code, wall clock.')
-_note8 = ('Bounds: 2 connections, one connect-time server-side subscription, <= 2 (quick) / 3 (thorough) environment actions exhaustively with arbitrarily delayed closers; replay 400 / 2500 simulated '
+_note8 = ('Bounds: 2 connections, one connect-time server-side subscription (three in the push part), expiring credentials on connection 2 (quick) / either (thorough, replay), <= 2 (quick) / 3 (thorough) environment actions exhaustively with arbitrarily delayed closers; replay 400 / 2500 simulated '
           'behaviours of <= 40 steps with <= 5 environment actions. Trusted: TLC, lib/tlaparse.py, harness gates and monitor code.')
-_note11 = _note8 + ' Dictionary compression: all scenarios with <= 2 (quick) / 3 (thorough) frames after the connect reply x 3 closers + close during OnConnecting.'
+_note11 = _note8 + ' Dictionary compression: all scenarios with <= 2 (quick) / 3 (thorough) frames after the connect reply x 3 closers + close during OnConnecting; connect command x close(): every interleaving on the model, 16 schedules (4 hold points x dictionary full / unknown id x with / without a later frame) replayed.'
 META = {
     'C11': dict(level='model_checking',
-                text='ConnLife.tla (see C08) with pushes aimed at a connection whose connect command is still under way: the monitor "the first frame is the connect reply" is checked by TLC on the '
+                text='ConnLife.tla (see C08) with pushes (Client.Send, publications without and with an offset to gated / ungated / positioned connect-time subscriptions) aimed at a connection whose connect command is still under way: the monitor "the first frame is the connect reply" is checked by TLC on the '
                      'model and evaluated on the frames real connections received, the pushes being placed by natural gates inside the window between hub registration and the reply. '
                      'ConnDict.tla models the codec life cycle (pending until the first write, promoted by it, Encode for every later write, closed once by close() after the writer stopped); '
                      'every scenario is replayed over a real WebSocket connection with a recording DictionaryCompression engine: first frame raw and carrying the dictionary, later frames equal '
-                     'to the engine\'s Encode outputs in order, Close exactly once, after the last Encode and never overlapping one.',
+                     'to the engine\'s Encode outputs in order, Close exactly once, after the last Encode and never overlapping one. ConnDictConn.tla splits the connect command (OnConnecting, closed check, engine negotiation, '
+                     'Dictionary, install, closed re-check, registration, reply) and close() (status, writer, codec, transport) into steps and TLC checks "every codec handed out is closed '
+                     'exactly once, nothing encoded after Close" over every interleaving; the schedules a real connection can follow (close() by the stale timer while the connect command is '
+                     'held inside OnConnecting / NewDictionaryConnection / Dictionary, or after the handshake) are replayed with a parking engine.',
                 note=_note11, technique='TLA+ specs + TLC exhaustive; gate replay (pushes in the connect window); scenario replay over a real WebSocket connection with a recording codec'),
     'C08': dict(level='model_checking',
-                text='ConnLife.tla models the connect handshake (OnConnecting, authentication + hub registration, connect-time server-side subscription, reply, OnConnect under connectMu, status '
-                     'change, timers), the presence tick (presenceMu, OnAlive), close() (connectMu for its whole duration, status flip, hub removal, Transport.Close, presenceMu, unsubscribe loop '
+                text='ConnLife.tla models the connect handshake (OnConnecting, authentication, hub registration followed by the shutdown check as a step of its own, connect-time server-side '
+                     'subscription, reply, OnConnect under connectMu, status change, timer arming as a step of its own), the presence tick (presenceMu, OnAlive), the expiry timer (refresh handler), close() (connectMu for its whole duration, status flip, hub removal, Transport.Close, presenceMu, unsubscribe loop '
                      'waiting for an in-flight connect-time subscription, disconnect callback iff it was connected) started by Client.Disconnect / the transport / Node.Shutdown (flag, hub '
-                     'snapshot, one close per connection, return) for two connections; TLC checks the callback-order, unsubscribe-count and after-shutdown monitors exhaustively; simulated and '
+                     'snapshot, one close per connection, return) for two connections; TLC checks the callback-order (incl. no alive / refresh callback before the connect callback returned), unsubscribe-count and after-shutdown monitors exhaustively; simulated and '
                      'witness behaviours are replayed on real nodes with every thread parked where the model says (natural gates only) and the monitors are evaluated on the real callback logs.',
                 note=_note8, technique='TLA+ spec + TLC exhaustive; gate replay on real clients through natural gates; witness schedules; observable-only monitors'),
     'C36': dict(level='model_checking',
@@ -351,7 +513,10 @@ META = {
                 text='ConnHistory.tla transcribes the limit clamp of handleHistory and the request checks of Node.history, states the property independently (entitled limit, bound, '
                      'filter and order of the returned offsets, bad request for reverse since offset 0) and TLC checks it on every request of the bounded argument space; every row is then '
                      'replayed through the client command path (history / presence / presence_stats commands on a real client, JSON and Protobuf) and the reply is compared with the row and '
-                     'with the node-level result for the effective filter computed on the same node.',
+                     'with the node-level result for the effective filter computed on the same node. ConnHistorySF.tla models two concurrent readers under Config.UseSingleFlight (in-flight set keyed as '
+                     'historySingleFlight builds the key; client commands clamped first; recovery and stream-top reads of subscribers as leaders) and states that every reader receives what '
+                     'its request returns alone; every ordered pair of requests x arrival point (first reader inside Broker.History, after it but still in flight, finished) is replayed with '
+                     'the first reader parked by a gating Broker and both replies are compared with the same request executed alone on the same stream.',
                 note=_note43, technique='TLA+ transcription + TLC exhaustive enumeration; function-table replay through the client command path vs node-level API'),
     'C09': dict(level='model_checking',
                 text='Connect.tla transcribes HandleCommand/dispatchCommand and every command handler (authenticated gate, unusable connections, the pong rule with the lastPing sign, '
